@@ -1044,6 +1044,7 @@ func checkC07(w *World, r *Report) {
 	}
 
 	checkCancelDeferred(w, r, "C07.R2")
+	checkDrainStart(w, r, "C07.R3")
 	// R3
 	{
 		g := w.FG(pr.invoke)
